@@ -72,7 +72,9 @@ func (s *set[ElementType]) DeleteAll(other ReadableSet[ElementType]) (removedEle
 
 	removedElements = NewSet[ElementType]()
 	_ = other.ForEach(func(element ElementType) (err error) {
-		if s.Delete(element) {
+		// delete from the underlying map directly: s.Delete would take the read lock a second time, which
+		// dead-locks as soon as an Apply/Compute/Replace queues for the write lock in between.
+		if s.OrderedMap.Delete(element) {
 			removedElements.Add(element)
 		}
 
